@@ -41,3 +41,9 @@ Notation "'do' x <- e ; k" := (option_bind e (fun x => k))
 
 (* error marker printed by run_* functions when decoding fails *)
 Definition decode_error : sexp := L [A 999999; A 999999; A 999999].
+
+(* A judgement flag: the model's verdict on the implementation's observation.
+   The comparator first compares everything else (model vs implementation);
+   only a difference confined to judgement flags can be a known finding. *)
+Definition JUDGETAG : N := 666666.
+Definition judge (b : bool) : sexp := L [A JUDGETAG; of_bool b].
